@@ -190,9 +190,10 @@ func zvoSortedKeys[V any](m map[string]V) []string {
 	return ks
 }
 
-// zvoTune: measured on one C11 universe, GOGC=200 is the fastest setting (the
-// global BGPPathA cache is pre-sized to 100000 entries and scanned by every GC
-// cycle; much larger values lose more on fresh-span initialisation than they gain).
+// zvoFresh is called at the start of every replayed history: see the hook's comment.
+func zvoFresh() { route.ZZVerifResetBGPPathACache() }
+
+// zvoTune: GOGC=200 measured fastest for these allocation-heavy explorations.
 func zvoTune() {
 	if os.Getenv("GOGC") == "" {
 		debug.SetGCPercent(200)
